@@ -583,6 +583,12 @@ func (s *Sess) wf(t string, T types.Type, top string) string {
 	case *types.Slice:
 		return fmt.Sprintf("(and (< (s.base %s) %s) (<= 0 (s.base %s)) (<= 0 (s.off %s)) (<= 0 (s.len %s)) (<= (s.len %s) (s.cap %s)) (=> (= (s.base %s) 0) (= (s.cap %s) 0)))", t, top, t, t, t, t, t, t, t)
 	case *types.Interface:
+		if isOneofWrapperIface(T) {
+			// generated protobuf oneof field: a non-nil interface value holds a non-nil wrapper pointer
+			// (protobuf-go never stores a typed nil wrapper; modelling assumption, listed)
+			s.trustedUsed["generated protobuf oneof fields never hold a typed nil wrapper pointer"] = true
+			return fmt.Sprintf("(and (<= 0 (i.tag %s)) (= (= (i.tag %s) 0) (= (i.val %s) 0)))", t, t, t)
+		}
 		return fmt.Sprintf("(and (<= 0 (i.tag %s)) (=> (= (i.tag %s) 0) (= (i.val %s) 0)))", t, t, t)
 	case *types.Struct:
 		si := s.tc.structSort(T)
@@ -593,6 +599,21 @@ func (s *Sess) wf(t string, T types.Type, top string) string {
 		return and(cs...)
 	}
 	return "true"
+}
+
+// isOneofWrapperIface recognises the marker interfaces protoc-gen-go emits for oneof fields:
+// `type isFoo_Bar interface { isFoo_Bar() }`.
+func isOneofWrapperIface(T types.Type) bool {
+	n, ok := types.Unalias(T).(*types.Named)
+	if !ok {
+		return false
+	}
+	it, ok := n.Underlying().(*types.Interface)
+	if !ok || it.NumMethods() != 1 {
+		return false
+	}
+	name := n.Obj().Name()
+	return strings.HasPrefix(name, "is") && it.Method(0).Name() == name
 }
 
 // ---------------------------------------------------------------------------------------------
@@ -1113,8 +1134,8 @@ func (s *Sess) finish() {
 	for _, r := range s.rets {
 		s.curBlk = r.blk
 		for i, c := range s.ct.Ensures {
-			if c.E == nil {
-				continue
+			if c.E == nil || c.Free {
+				continue // free ensures: assumed by callers, not an obligation here (listed as an assumption)
 			}
 			ce := s.funcEnv(r.st, s.entry, r.vals)
 			f, err := ce.evalBool(c.E)
